@@ -911,6 +911,99 @@ def reconnect_then_close_case(tid, first, closers, cuts=1):
     return w, rec
 
 
+def scared_close_case(tid, victim, after_cut):
+    """A wormhole that closes by itself while Dilation is busy: both sides dilated and connected (or, `after_cut`, re-connecting after a
+    loss) when a message arrives on the peer's side of the mailbox that does not decrypt (garbled in storage, forged, a buggy peer):
+    the victim closes with WrongPasswordError - and Dilation has to be shut down like at any other close."""
+    w = FullWorld(variant=tid)
+    w.schedule.append(["scared-close", victim, bool(after_cut)])
+    other = "F" if victim == "L" else "L"
+    rested = True
+    try:
+        w.do(("AppDilate", "L", 0))
+        w.do(("AppDilate", "F", 0))
+        rested = w.run_out()
+        if after_cut:
+            sel = w.selected_links(victim)
+            if sel:
+                w.do(("Cut", "-", sel[0]))
+                w.do(("ObserveLoss", victim, sel[0]))
+                while w._run_eq_call(victim, "lost"):
+                    pass
+        conn = w.mb.live_conn(w.cl[victim])
+        if conn is None or not conn.srv.get("mailbox"):
+            raise RuntimeError("no mailbox connection to inject into")
+        w.mb.apply({"a": "Inject", "side": w.cl[other].side, "phase": "7", "body": "00" * 64, "mailbox": conn.srv["mailbox"],
+                    "appid": getattr(w.cl[victim], "appid", "appid")})
+        w.pump_mailbox()
+        w.snapshot()
+        rested = w.run_out() and rested
+        # (a Deferred-mode wormhole shows that it has closed - and with which verdict - only through close())
+        w.do(("Stop", victim, 0))
+        rested = w.run_out() and rested
+    except Exception as e:
+        rested = False
+        w.internal.append("scared_close_case: %r" % (e,))
+    final = w.state()
+    w.snapshot()
+    internal = w.finish()
+    benign = [x for x in internal if any(b in x for b in BENIGN)]
+    rec = {"tid": tid, "snaps": w.snaps, "final": final, "internal": [x for x in internal if x not in benign], "benign": len(benign),
+           "stopCalled": {"L": False, "F": False}, "atEnd": final, "rested": bool(rested),
+           "specStopped": {"L": False, "F": False}, "convergenceDue": False,
+           "restStopDue": {n: bool(rested and n == victim) for n in ("L", "F")}, "restConvergenceDue": False}
+    return w, rec
+
+
+def generations_case(tid, ncuts, pattern):
+    """A long life: the connection in use is lost `ncuts` times, the sides taking turns (`pattern`) at noticing first; after every loss
+    everything is run out fairly and the two sides must be connected again on one shared link (control messages, generations and
+    whatever else counts up with every loss have had time to grow)."""
+    w = FullWorld(variant=tid)
+    w.schedule.append(["generations", ncuts, pattern])
+    rested = True
+    reconverged = 0
+    try:
+        w.do(("AppDilate", "L", 0))
+        w.do(("AppDilate", "F", 0))
+        rested = w.run_out()
+        for k in range(ncuts):
+            first = pattern[k % len(pattern)]
+            other = "F" if first == "L" else "L"
+            sel = w.selected_links(first)
+            if not sel:
+                break
+            w.do(("Cut", "-", sel[0]))
+            w.do(("ObserveLoss", first, sel[0]))
+            while w._run_eq_call(first, "lost"):
+                pass
+            w.run_auto_timers()
+            w.pump_mailbox()
+            for _ in range(4):
+                if not w.held[other]:
+                    break
+                w.do(("MailboxDeliver", other, 0))
+            rested = w.run_out() and rested
+            st = w.state()
+            if all(st[n]["mgr"] == "CONNECTED" for n in ("L", "F")) and st["L"]["sel"] == st["F"]["sel"] and st["L"]["sel"] > 0:
+                reconverged += 1
+            else:
+                break
+    except Exception as e:
+        rested = False
+        w.internal.append("generations_case: %r" % (e,))
+    final = w.state()
+    internal = w.finish()
+    benign = [x for x in internal if any(b in x for b in BENIGN)]
+    # the snapshots of a long run are many: every fifth and the last ones are kept for the per-moment clauses
+    snaps = w.snaps[::5] + w.snaps[-3:]
+    rec = {"tid": tid, "snaps": snaps, "final": final, "internal": [x for x in internal if x not in benign], "benign": len(benign),
+           "stopCalled": {"L": False, "F": False}, "atEnd": final, "rested": bool(rested),
+           "specStopped": {"L": False, "F": False}, "convergenceDue": False,
+           "restStopDue": {"L": False, "F": False}, "restConvergenceDue": bool(rested), "reconverged": reconverged}
+    return w, rec
+
+
 def old_peer_case(tid):
     """the peer cannot dilate: pending and future subchannel connect() calls fail with OldPeerCannotDilateError"""
     from ..mbworld import MailboxWorld as MW
@@ -1123,6 +1216,30 @@ def run(prop, tier):
                     records.append(rec)
                     meta[tid] = {"schedule": w.schedule, "no_listen": [], "traffic": False, "frag": 0}
         cov["reconnect_then_close_cases"] = nrc
+        # family: a wormhole that closes by itself (undecryptable peer message) while dilated
+        nsc = 0
+        for victim in ("L", "F"):
+            for after_cut in (False, True):
+                tid += 1
+                nsc += 1
+                w, rec = scared_close_case(tid, victim, after_cut)
+                rec["origin"], rec["config"] = "family:scared-close", "full"
+                rec.setdefault("oldpeer", {"ok": True, "closed": True})
+                records.append(rec)
+                meta[tid] = {"schedule": w.schedule, "no_listen": [], "traffic": False, "frag": 0}
+        cov["scared_close_cases"] = nsc
+        # family: many generations on one pair of wormholes
+        ngen = 0
+        for ncuts, pattern in (((7, "LF"), (6, "F")) if quick else ((7, "LF"), (6, "F"), (12, "L"), (9, "FFL"))):
+            tid += 1
+            ngen += 1
+            w, rec = generations_case(tid, ncuts, pattern)
+            rec["origin"], rec["config"] = "family:generations", "full"
+            rec.setdefault("oldpeer", {"ok": True, "closed": True})
+            records.append(rec)
+            meta[tid] = {"schedule": w.schedule, "no_listen": [], "traffic": False, "frag": 0}
+            cov.setdefault("generations_reconverged", []).append([ncuts, pattern, rec["reconverged"]])
+        cov["generations_cases"] = ngen
         path = wd.file("obs.ndjson")
         with open(path, "w") as f:
             for rec in records:
